@@ -369,7 +369,13 @@ def do(op: dict) -> str:
             return f"construct=error:{err_class(e)} msg={str(e)[:70].replace(' ', '_').replace('=', ':')}"
         if tmpd:
             _sh.rmtree(tmpd, ignore_errors=True)
-        out = f"construct=ok thr={frac(Fraction(float(sv.conv_threshold)))} gamma_dtype={jnp.asarray(sv.gamma).dtype} fmt={getattr(sv, 'convergence_format', '_')}"
+        cfg_ = sv.config
+        attrs = ";".join(f"{k_}:{getattr(cfg_, k_, None)}" for k_ in ("gamma", "epsilon", "max_batch_size", "convergence_test", "period", "max_eval_iter",
+                                                                     "reset_values_for_each_policy_eval", "clear_value_history_on_convergence",
+                                                                     "shuffle_states", "random_seed", "verbose", "max_checkpoints", "jax_double_precision"))
+        attrs += f";attr_period:{getattr(sv, 'period', None)};attr_bs:{sv.batch_size};attr_eps:{float(sv.epsilon)}"
+        out = (f"construct=ok thr={frac(Fraction(float(sv.conv_threshold)))} gamma_dtype={jnp.asarray(sv.gamma).dtype} fmt={getattr(sv, 'convergence_format', '_')} "
+               f"attrs={attrs.replace(' ', '')}")
         try:
             st = sv.solve(op.get("k", 3))
         except Exception as e:  # noqa: BLE001
